@@ -523,8 +523,8 @@ func c13GenReq(t *rapid.T) c13Case {
 	o := dm.DefaultGen()
 	o.Types = []string{"int8", "int32", "uint64", "decimal64", "string", "boolean", "enumeration", "bits", "identityref", "binary", "empty"}
 	o.KeyTypes = []string{"string", "int32", "boolean", "enumeration"}
-	store := rapid.SampledFrom([]string{"rs", "rs", "reflect-map", "node-map", "reflect-slice", "node-slice"}).Draw(t, "store")
-	if store != "rs" {
+	store := rapid.SampledFrom([]string{"rs", "rs", "reflect-map", "node-map", "reflect-slice", "node-slice", "json-reader", "xml-reader"}).Draw(t, "store")
+	if store != "rs" && !strings.HasSuffix(store, "-reader") {
 		// what the Go-data stores can hold (as in C03 / C18)
 		o.Unions, o.ConfigFalse, o.CompoundKeys = false, false, true
 		o.Types = []string{"int8", "int32", "int64", "uint16", "uint64", "decimal64", "string", "boolean"}
